@@ -976,7 +976,11 @@ func differential40(t *rapid.T, rec *ev.Rec) {
 	}
 	dL, dR := dumpDb(srvL), dumpDb(srvR)
 	if dL != dR {
-		t.Fatalf("database contents differ after the script\ndirect:\n%s\nclient:\n%s", dL, dR)
+		var sb strings.Builder
+		for j := range ops {
+			fmt.Fprintf(&sb, "  %2d %-50s => %s\n", j, ops[j], resL[j])
+		}
+		t.Fatalf("database contents differ after the script (lines only in one dump):\n%s\nscript (direct results):\n%s", diffLines(dL, dR), sb.String())
 	}
 	// (the dumps include db.Check(full); a complaint that both sides share is
 	// the database layer's business, not this property's: counted only)
@@ -1133,7 +1137,7 @@ func concurrent40(t *rapid.T, rec *ev.Rec) {
 		t.Fatalf("the server called Fatal / panicked while serving well-formed clients: %q", fatals)
 	}
 	if dL, dR := dumpDb(srvL), dumpDb(srvR); dL != dR {
-		t.Fatalf("database contents differ after %d concurrent sessions\ndirect:\n%s\nclient:\n%s", ns, dL, dR)
+		t.Fatalf("database contents differ after %d concurrent sessions (lines only in one dump):\n%s", ns, diffLines(dL, dR))
 	}
 	rec.Case(multi >= 2, fmt.Sprint(scripts))
 	rec.Label(fmt.Sprintf("conc_sessions_%d", ns))
@@ -1295,4 +1299,25 @@ func firstDiff(a, b string) int {
 		}
 	}
 	return n
+}
+
+// diffLines lists the lines that occur in only one of two dumps.
+func diffLines(a, b string) string {
+	count := map[string]int{}
+	for _, l := range strings.Split(a, "\n") {
+		count[l]++
+	}
+	for _, l := range strings.Split(b, "\n") {
+		count[l]--
+	}
+	var out []string
+	for l, n := range count {
+		if n > 0 {
+			out = append(out, "direct: "+l)
+		} else if n < 0 {
+			out = append(out, "client: "+l)
+		}
+	}
+	sort.Strings(out)
+	return strings.Join(out, "\n")
 }
